@@ -92,6 +92,19 @@ func (a *FuncAn) relationalCandidates(b *ssa.BasicBlock, s *State, edges []*Stat
 					try(eq)
 					try(Scale(eq, -1))
 				}
+				// two counters moving towards each other (i up, j down): x + y keeps its entry value
+				s0 := Add(*x.entry, *y.entry, 1)
+				invS := true
+				for _, t := range s0.t {
+					if a.stale(t.a, b, none, memo) {
+						invS = false
+					}
+				}
+				if invS {
+					eq := Add(Add(AtomLin(x.at), AtomLin(y.at), 1), s0, -1)
+					try(eq)
+					try(Scale(eq, -1))
+				}
 			}
 		}
 	}
